@@ -1,12 +1,12 @@
 import OpusModel.SilkCoreFrame
-import OpusModel.SilkCoreFrozen
+import OpusModel.SilkCoreFrozenEq
 import OpusProofs.SilkCoreParams
 /-
   OpusProofs.SilkCoreExample — concrete frames used as non-vacuity witnesses by `OpusProps.C03SilkCore`
   (evaluated by the kernel).
 -/
 namespace Opus.SilkCoreProofs
-open Opus Opus.SilkParams Opus.SilkCore Opus.Gen
+open Opus Opus.SilkParams Opus.SilkCore Opus.Gen Opus.Frozen
 
 /-- Decoder state after `silk_init_decoder` + `silk_decoder_set_fs( 8 kHz )`, 10 ms frames, with a non-trivial signal history. -/
 def exState : DecState :=
